@@ -227,7 +227,8 @@ def compare(tl_tree, ad_tree, items, active):
     valuation; the additional linearity vectors (2*e_k, sum, weighted) are run
     for the largest n of every p: with n = 4 every loop kind iterates and every
     condition takes both values, so every statement that can execute does."""
-    out = {"verdict": "ok", "runs": 0, "passive_note": None}
+    out = {"verdict": "ok", "runs": 0, "passive_note": None,
+           "passive_constant": True}
     vals = valuations(items, active)
     nmax = max(n for _p, n in vals)
     for pval, nval in vals:
@@ -242,6 +243,8 @@ def compare(tl_tree, ad_tree, items, active):
                        msg=f"{where}: tangent-linear code: "
                            f"{tlm.problem or tlm.passive_dep}")
             return out
+        if tlm.passive_out != tlm.passive_in:
+            out["passive_constant"] = False
         adm = probe(ad_tree, G.AD_ROUTINE, mval, pval, active, full)
         if adm.problem is not None:
             kind = adm.problem[0]
